@@ -3,6 +3,7 @@
 package main
 
 import (
+	"net/url"
 	"fmt"
 	"net/http"
 	"net/http/httptest"
@@ -51,7 +52,8 @@ var c15Outside = []string{"/", "/x", "/oauth2x/login", "/oauth", "/oauth2%2Flogi
 func runC15(c *ctx) {
 	r := c.rng
 	methods := []string{"GET", "HEAD", "POST", "PUT", "DELETE", "OPTIONS", "PATCH", "TRACE", "CONNECT", "PROPFIND"}
-	prefixSets := [][]string{{""}, {"/app"}, {"", "/app"}, {"/a/b"}, {"/app", "/app2"}}
+	// (the last two: ingress paths that need percent-encoding on the wire - a non-ASCII letter, a space; the router mounts the DECODED path, which is what it matches against)
+	prefixSets := [][]string{{""}, {"/app"}, {"", "/app"}, {"/a/b"}, {"/app", "/app2"}, {"/s%C3%B8knad"}, {"/min%20side", "/app"}}
 	n := 700
 	if c.thorough() {
 		n = 20000
@@ -76,6 +78,14 @@ func runC15(c *ctx) {
 				}
 				src := &recSource{ing: ing}
 				h := router.New(src, cfg)
+				var psDecoded []string
+				for _, p := range ps {
+					d, err := url.PathUnescape(p)
+					if err != nil {
+						d = p
+					}
+					psDecoded = append(psDecoded, d)
+				}
 				for i := 0; i < n; i++ {
 					var target string
 					if r.chance(4, 5) {
@@ -112,7 +122,7 @@ func runC15(c *ctx) {
 					}
 					cc := rec.Header().Get("Cache-Control")
 					c.count("route:" + impl)
-					c.emit("route", "sso", sso, "idporten", idp, "prefixes", ps, "method", m, "wire", hx(req.URL.EscapedPath()), "rpath", hx(rpath), "impl", impl,
+					c.emit("route", "sso", sso, "idporten", idp, "prefixes", psDecoded, "method", m, "wire", hx(req.URL.EscapedPath()), "rpath", hx(rpath), "impl", impl,
 						"status", rec.Code, "nocache", strings.Contains(cc, "no-store") || strings.Contains(cc, "no-cache"))
 				}
 			}
